@@ -19,8 +19,26 @@ import (
 
 // Worker owns one solver session and one term table (renewed per path).
 type Worker struct {
-	sol *Solver
-	tt  *TermTable
+	sol  *Solver
+	tt   *TermTable
+	sols map[string]*Solver // live sessions by kind ("z3", "cvc5"), started lazily
+	log  *os.File
+	st   *SolverStats
+}
+
+// use selects (and lazily starts) the live session of the given kind.
+func (w *Worker) use(kind string) {
+	if kind == "" {
+		kind = "z3"
+	}
+	if w.sols[kind] == nil {
+		if w.log != nil {
+			w.sols[kind] = NewSolverKind(w.log, w.st, kind)
+		} else {
+			w.sols[kind] = NewSolverKind(nil, w.st, kind)
+		}
+	}
+	w.sol = w.sols[kind]
 }
 
 type harnessSpec struct {
@@ -33,6 +51,7 @@ type harnessSpec struct {
 	pathCap  int
 	policies []string
 	witness  []string
+	solver   string
 	doc      string
 }
 
@@ -181,6 +200,10 @@ func parseSpecs(pkgs []*packages.Package) map[string]*harnessSpec {
 							sp.pathCap, _ = strconv.Atoi(fs[1])
 						case "policies":
 							sp.policies = fs[1:]
+						case "solver":
+							if len(fs) > 1 {
+								sp.solver = fs[1]
+							}
 						case "witness":
 							sp.witness = append(sp.witness, fs[1:]...)
 						}
@@ -216,13 +239,12 @@ func (r *Run) explore() {
 				logw, _ = os.Create(filepath.Join(r.dumpDir, fmt.Sprintf("worker%d.smt2", i)))
 				defer logw.Close()
 			}
-			var w *Worker
-			if logw != nil {
-				w = &Worker{sol: NewSolver(logw, r.stats)}
-			} else {
-				w = &Worker{sol: NewSolver(nil, r.stats)}
-			}
-			defer w.sol.Close()
+			w := &Worker{sols: map[string]*Solver{}, log: logw, st: r.stats}
+			defer func() {
+				for _, s := range w.sols {
+					s.Close()
+				}
+			}()
 			for {
 				r.qmu.Lock()
 				for len(r.queue) == 0 && r.inflight > 0 {
@@ -276,6 +298,7 @@ func (r *Run) runPath(w *Worker, it workItem) (more [][]uint64) {
 	hr.mu.Unlock()
 
 	w.tt = NewTermTable()
+	w.use(hr.spec.solver)
 	w.sol.Reset()
 	m := &Machine{w: w, hr: hr, prog: r.prog, tt: w.tt, prefix: it.prefix,
 		globals: map[*ssa.Global]*Node{}, inited: map[*ssa.Package]bool{},
